@@ -36,8 +36,10 @@ def stubs():
     return c13.stubs()
 
 
-def alias(tag, asname, dotted=None):
-    name = Hole((tag, "name"), "ident")
+def alias(tag, asname, dotted=None, star=False):
+    # star: the name of a from-import alias may also be "*"
+    # the name of an `import` alias is a dotted name
+    name = Hole((tag, "name"), "ident", star=True) if star else Hole((tag, "name"), "ident", dotted=True)
     return ast.alias(name=name, asname=Hole((tag, "asname"), "ident") if asname else None)
 
 
@@ -127,12 +129,12 @@ def g_import_from(R, tier):
     for has_module in (True, False):
         def run(c):
             m = Machine(stubs=stubs())
-            A1 = CL.seg("A1", lambda t: alias(t, not c.branch(z3.Bool("A1.no_asname"))))
-            A2 = CL.seg("A2", lambda t: alias(t, not c.branch(z3.Bool("A2.no_asname"))))
+            A1 = CL.seg("A1", lambda t: alias(t, not c.branch(z3.Bool("A1.no_asname")), star=True))
+            A2 = CL.seg("A2", lambda t: alias(t, not c.branch(z3.Bool("A2.no_asname")), star=True))
             level = z3.Int("level")
             c.assume(level >= 0)
             from olvc.sym import SInt
-            node = ast.ImportFrom(module=Hole("module", "ident") if has_module else None, names=[A1, A2], level=SInt(level))
+            node = ast.ImportFrom(module=Hole("module", "ident", dotted=True) if has_module else None, names=[A1, A2], level=SInt(level))
             self_ = CL.mk_pending(pn.PendingImportFrom, node, CL.mk_nsp(), CL.mk_global(), m=m)
             return dict(res=m.call_value(pn.PendingImportFrom.get_result, self_), node=node)
         paths = explore(run)
@@ -151,6 +153,13 @@ def g_import_from(R, tier):
             sym.set_ctx(c)
             try:
                 node = v["node"]
+                # 0. a result is produced only after every imported name was found not to be "*"
+                for A in node.names:
+                    if c13._provably_zero(c, A.length):
+                        continue
+                    okstar, _ = c.valid(z3.Not(A.items[0].name.fact("=='*'")))
+                    R.check(f"{nm}/accepted-only-when-no-imported-name-is-a-star[{A.tag}]/{sig}", okstar,
+                            f"path facts {p.ctx.facts}: a result is returned although the name of run {A.tag} may be '*'", replay=dict(kind="star-import"))
                 ev = c13.EvalA()
                 try:
                     ev.seq(v["res"])
@@ -245,7 +254,16 @@ def replay_imports(rp):
         shutil.rmtree(d, ignore_errors=True)
 
 
-REPLAY = {"imports": replay_imports, "src": c13.replay_src}
+def replay_star_import(rp):
+    from suites import replay_util as RU
+    for src in ("from os.path import *\n", "from os.path import join, *\n" if False else "if 1:\n    from os.path import *\n"):
+        rep = RU.replay_source(src, "raises", opts=[("ast.unparse", "chain_call", "if_expr")])
+        if rep.get("reproduced"):
+            return rep
+    return dict(reproduced=False)
+
+
+REPLAY = {"imports": replay_imports, "src": c13.replay_src, "star-import": replay_star_import}
 
 from suites import thorough as _th
 GROUPS["thorough:import-programs"] = _th.bounded_from_replay("bounded/vendored-package-imports", replay_imports)
